@@ -92,6 +92,56 @@ def scripted_stage(chk, tier, seed):
     chk.ev.cov["scripted_runs_with_reset"] = nres
 
 
+def aggregator_stage(chk, tier, seed):
+    """the REAL parallel solver handed K scripted start solutions and exactly K sequential runs with scripted operators vs
+    Model/SolverLoop.v ainit / arecv / arun over the runs' srun outputs: the scores delivered on the result channel"""
+    import os
+    import random
+    import common as C
+    rng = random.Random(seed * 131 + 66)
+    n = 300 if tier == "quick" else 10000
+    blocks = []
+    for i in range(n):
+        k = rng.choice([1, 2, 3, 3, 4, 5])
+        starts = [rng.randint(1, 1023) for _ in range(k)]
+        lines = ["astarts " + " ".join(map(str, starts))]
+        low = min(starts)
+        for _ in range(k):
+            ws = []
+            for _ in range(rng.randint(1, 5)):
+                r = rng.random()
+                ws.append(rng.randint(0, max(0, low - 1)) if r < 0.35 else rng.randint(0, 1023))
+            low = min([low] + ws)
+            lines.append("arun " + " ".join(map(str, ws)))
+        blocks.append((str(i), lines))
+    cf = os.path.join(C.BUILD, "c06_aloop_%s.case" % tier)
+    C.write_cases(cf, blocks)
+    (rc1, go_out, go_err), (rc2, ml_out, ml_err) = C.run_both("aloop", cf, timeout=3000)
+    chk.ob("scripted start solutions: harness and model runner exit normally", rc1 == 0 and rc2 == 0, (go_err + ml_err)[-300:])
+    g, m = C.group_lines(go_out), C.group_lines(ml_out)
+    bad, nworse = [], 0
+    for cid, lines in blocks:
+        gl, ml = g.get(cid, []), m.get(cid, [])
+        if gl != ml and len(bad) < 5:
+            bad.append({"case": lines, "impl": gl, "model": ml})
+        sent = [int(x) for l in gl if l.startswith("delivered") for x in l.split()[1:]]
+        starts = [int(x) for x in lines[0].split()[1:]]
+        fails = [("scores on the channel not strictly decreasing: %d then %d" % (a, b)) for a, b in zip(sent, sent[1:]) if not b < a]
+        if not sent:
+            fails.append("nothing delivered: %s" % gl[:2])
+        elif sent[0] != min(starts):
+            fails.append("first delivered solution has score %d, the best start solution has %d" % (sent[0], min(starts)))
+        if fails:
+            nworse += 1
+            chk.violation({"kind": "history", "what": fails[0], "delivered": sent, "case": lines,
+                           "how_to_replay": "nrharness aloop <file with: case x / these lines / end>"})
+    chk.ob("parallel solver with scripted start solutions = SolverLoop.arun on %d cases" % n, not bad, str(bad[0])[:600] if bad else "")
+    if bad and chk.mismatch is None:
+        chk.mismatch = bad[0]
+    chk.ob("scripted start solutions: delivered scores start at the best start solution and strictly decrease (implementation)", nworse == 0)
+    chk.ev.cov["scripted_start_solution_cases"] = n
+
+
 def run(tier, seed, replay=None):
     chk = FW.Check(PID, tier, seed)
     if not chk.builds(model=True, harness=True, skeletons=True):
@@ -99,6 +149,7 @@ def run(tier, seed, replay=None):
     chk.proofs()
     chk.oblig("O_C06")
     scripted_stage(chk, tier, seed)
+    aggregator_stage(chk, tier, seed)
     n = 40 if tier == "quick" else 600
     cases = S.make_solve_cases(seed * 31 + 6, n, settings, size="small" if tier == "quick" else "medium")
     runs, rc, err = S.run_solve(cases, "c06_" + tier)
